@@ -108,7 +108,11 @@ def _build(ctx, n, log, with_constraints, with_absent, results_flag=True, requir
 
         req = bool(required[i]) if required is not None else False
         if before[i] or after[i] or req or i % 2 == 0:
-            digest = constraints(before=before[i], after=after[i], required=req)(digest)
+            # the declared type is Iterable[str]: sets, lists, and one-shot iterators / generators alike
+            form = (i + len(before[i]) + 2 * len(after[i])) % 3
+            b_arg = [set(before[i]), sorted(before[i]), iter(sorted(before[i]))][form]
+            a_arg = [set(after[i]), (x for x in sorted(after[i])), tuple(sorted(after[i]))][form]
+            digest = constraints(before=b_arg, after=a_arg, required=req)(digest)
         eps.append(EP(NAMES[i], digest))
     return eps, edges, results
 
